@@ -240,6 +240,20 @@ func checkC06(c CaseC06, info *Info) *Failure {
 		if d.Decode(&ref) != nil || !reflect.DeepEqual(map[string]interface{}(nm), ref) {
 			return failf("use-number-mismatch", "%q: got %#v want %#v", b, nm, ref)
 		}
+		// a Map holding json.Number values re-encodes to the same text, and Copy keeps the numbers' text too
+		mxj.JsonUseNumber = true
+		nb, nberr := nm.Json(c.Safe)
+		ncp, ncerr := nm.Copy()
+		mxj.JsonUseNumber = false
+		var cb1, cb2 bytes.Buffer
+		json.Compact(&cb1, b)
+		json.Compact(&cb2, nb)
+		if nberr != nil || !bytes.Equal(cb1.Bytes(), cb2.Bytes()) {
+			return failf("use-number-mismatch", "re-encoding the UseNumber Map gives %q (%v), first encoding %q", nb, nberr, b)
+		}
+		if ncerr != nil || !reflect.DeepEqual(map[string]interface{}(ncp), map[string]interface{}(nm)) {
+			return failf("copy-mismatch", "Copy of a Map with json.Number values under JsonUseNumber = %#v,%v want %#v", ncp, ncerr, nm)
+		}
 		info.ClassIf(c.Safe, "safe encoding")
 		info.ClassIf(lit, "literal \\u00xx text in data")
 		info.NonTrivial(want > 0 || lit)
